@@ -21,6 +21,7 @@ Every applied renaming is printed into the evidence (`notes`).
 import ast
 import json
 import os
+import re
 
 TABLE = os.path.join(os.path.dirname(os.path.abspath(__file__)), "tables", "private_roles.json")
 
@@ -93,16 +94,17 @@ def fingerprint(fn):
                 out.add("." + n.attr)
             elif isinstance(n, ast.Name) and isinstance(n.ctx, ast.Load) and not is_private(n.id) and n.id not in params and n.id not in stored:
                 out.add(n.id)
-            elif isinstance(n, ast.Constant) and isinstance(n.value, str) and 0 < len(n.value) <= 40:
-                out.add(repr(n.value))
-    return sorted(out)[:80]
+            elif isinstance(n, ast.Constant) and isinstance(n.value, str):
+                # the words of the text, so that "%s" / f-string / concatenation spellings of one message agree
+                for w0 in re.findall(r"[A-Za-z_][A-Za-z_0-9]{2,}", n.value)[:12]:
+                    out.add("'" + w0)
+    return sorted(out)[:120]
 
 
 def similarity(a, b):
+    """Jaccard similarity with one pseudo element in common (bodies of one or two tokens should not score 0 for one token)"""
     a, b = set(a), set(b)
-    if not a and not b:
-        return 1.0
-    return len(a & b) / float(len(a | b))
+    return (len(a & b) + 1.0) / (len(a | b) + 1.0)
 
 
 def profiles(tree):
@@ -123,7 +125,8 @@ def profiles(tree):
                 users = sorted(set(("%s.%s" % (o, g.name)) if o else g.name for o, g in all_funcs if g is not fn and fn.name in _refs(g)))
             else:
                 users = sorted(set(g.name for g in funcs if g is not fn and fn.name in _refs(g)))
-            tab[fn.name] = {"kind": _kind(fn), "arity": _arity(fn), "referrers": users, "uses": fingerprint(fn)}
+            tab[fn.name] = {"kind": _kind(fn), "arity": _arity(fn), "referrers": users, "uses": fingerprint(fn),
+                            "recursive": fn.name in _refs(fn)}
         if tab:
             res[owner] = tab
     return res
@@ -146,13 +149,21 @@ def _blur(names, known):
     return sorted(out)
 
 
-def _ref_names(names, known):
-    """referrer names reduced to what can be compared across a re-organisation: the plain function name, and '?' for every
-    private name the table does not know (a renamed or new private function)"""
+def _ref_names(names, known, have=None, depth=0):
+    """referrer names reduced to what can be compared across a re-organisation: the plain function name; a private name the
+    table does not know (a renamed or new private function) stands for whoever refers to it in turn (two levels), else '?'"""
     out = set()
     for n in names:
         base = n.split(".")[-1]
-        out.add(base if (not is_private(base) or base in known) else "?")
+        if not is_private(base) or base in known:
+            out.add(base)
+            continue
+        via = None
+        if have is not None and depth < 2:
+            for tab in have.values():
+                if base in tab:
+                    via = _ref_names(tab[base]["referrers"], known, have, depth + 1)
+        out |= via if via else set(["?"])
     return out
 
 
@@ -161,8 +172,9 @@ def plan_renames(modname, tree, table=None):
     A listed private function that is missing from its owner is matched with a private function of the same module that the
     table does not list: in the same owner (same kind and number of parameters), or - a method that never needed its
     instance moved out of the class, or the reverse - at module level / in a class with the parameter count adjusted for
-    self / cls.  The match is scored by what the body is made of (0.65) and by who refers to it (0.35); it is accepted when the
-    score is at least 0.45 and clearly better (0.12) than that of the next candidate, and when no other missing name claims
+    self / cls.  The match is scored by what the body is made of (0.6) and by who refers to it, directly (0.2) and through other unlisted
+    private functions (0.2); a function that calls itself matches one
+    that does (0.1); it is accepted when the score is at least 0.5 and clearly better (0.08) than that of the next candidate, and when no other missing name claims
     the same function."""
     table = load_table() if table is None else table
     want = table.get(modname)
@@ -182,7 +194,9 @@ def plan_renames(modname, tree, table=None):
             if any(m in tab for tab in have.values()) and m in htab:
                 continue
             w = wtab[m]
-            w_refs = _ref_names(w["referrers"], known_now)
+            # direct referrers (a private name unknown on the other side is '?') and referrers seen through such names
+            w_direct = _ref_names(w["referrers"], known_now)
+            w_trans = _ref_names(w["referrers"], known_now, want)
             scored = []
             for o, y in fresh:
                 h = have[o][y]
@@ -200,10 +214,13 @@ def plan_renames(modname, tree, table=None):
                     ok = False
                 if not ok:
                     continue
-                score = 0.65 * similarity(h.get("uses", ()), w.get("uses", ())) + 0.35 * similarity(_ref_names(h["referrers"], known_now), w_refs)
+                score = 0.6 * similarity(h.get("uses", ()), w.get("uses", ())) \
+                    + 0.2 * similarity(_ref_names(h["referrers"], known_now), w_direct) \
+                    + 0.2 * similarity(_ref_names(h["referrers"], known_now, have), w_trans) \
+                    + (0.1 if bool(h.get("recursive")) == bool(w.get("recursive")) else 0.0)
                 scored.append((score, o, y))
             scored.sort(reverse=True)
-            if scored and scored[0][0] >= 0.45 and (len(scored) == 1 or scored[0][0] - scored[1][0] >= 0.12):
+            if scored and scored[0][0] >= 0.5 and (len(scored) == 1 or scored[0][0] - scored[1][0] >= 0.08):
                 claims.setdefault((scored[0][1], scored[0][2]), []).append((owner, m))
     plan = []
     for (o, y), ms in sorted(claims.items()):
